@@ -17,7 +17,7 @@ CHECKS = {
              "perifocal rotation; cartesian->keplerian against energy / eccentricity vector / h / node definitions and as left "
              "inverse of the reference k->c); Infos relations (vis-viva, apsides, period, vinf, dinf, flight-path angle); on "
              "every return path of M2E within the unwinding bound the returned anomaly solves Kepler's equation to 2 e tol and the "
-             "Newton start value of every start branch stays where binary64 sinh/cosh are finite (|start| <= 700 for |M| <= 400, "
+             "Newton start value of every start branch stays where binary64 sinh/cosh are finite (|start| <= 700 for |M| <= 1e6, "
              "1.001 < e <= 20); all 90 ordered form pairs route through existing edges (enumerated).",
         note="Trusted: z3; numpy object-dtype kernels; textbook definitions written in the harness; Lipschitz/convexity lemmas for "
              "sin/sinh in the M2E exit argument; the encoder's polynomial normal form (only as fallback when the solver is "
@@ -247,8 +247,10 @@ CHECKS = {
              "(exact reals, cos/sin as a point on the unit circle) and the solver proves, for all n>0, all times, all initial "
              "states and thrusts: Hill's ODE with constant thrust, identity at t=0, composition/inverse, TNW = fixed permutation "
              "of QSW, one impulsive/continuous maneuver applied exactly once / only inside its window, and that each helper "
-             "maneuver ends exactly where announced and at rest. Bounded: <=1 maneuver via the generic path (helper sequences "
-             "of up to 3), real arithmetic instead of binary64.",
+             "maneuver ends exactly where announced and at rest; propagating the orbit returned by propagate(t1) further to "
+             "t2 >= t1 equals propagate(t2) through an impulsive or a continuous maneuver (maneuvers dated at or before an "
+             "orbit's epoch belong to its past). Going back across a maneuver is a recorded open finding. Bounded: <=1 "
+             "maneuver via the generic path (helper sequences of up to 3), real arithmetic instead of binary64.",
         note="Trusted: z3; numpy object-dtype kernels; the textbook CW closed form and Hill's equations written in the harness; "
              "Date/timedelta replaced by exact real-second stubs. Outside: second-order agreement with Keplerian difference.",
         ref="DESIGN.md section 3 C16", technique=TECH),
